@@ -88,10 +88,23 @@ def str_parts(expr):
                 return None
         return out
     if isinstance(expr, ast.BinOp) and isinstance(expr.op, ast.Add):
-        a, b = str_parts(expr.left), str_parts(expr.right)
+        a = [('hole', expr.left.id)] if isinstance(expr.left, ast.Name) else str_parts(expr.left)
+        b = [('hole', expr.right.id)] if isinstance(expr.right, ast.Name) else str_parts(expr.right)
         if a is None or b is None:
             return None
         return a + b
+    return None
+
+
+def _loop_constants(node, name):
+    """Constant strings a name ranges over when it is the target of an enclosing `for name in (<str>, ...)`."""
+    for a in astx.ancestors(node):
+        if isinstance(a, ast.For) and isinstance(a.target, ast.Name) and a.target.id == name and \
+                isinstance(a.iter, (ast.Tuple, ast.List)) and a.iter.elts and \
+                all(astx.const_str(e) is not None for e in a.iter.elts):
+            return [astx.const_str(e) for e in a.iter.elts]
+        if isinstance(a, (ast.FunctionDef, ast.AsyncFunctionDef)):
+            break
     return None
 
 
@@ -292,12 +305,20 @@ def sql_calls(fn_or_node):
         if astx.callee_attr(c) != 'execute' or not c.args:
             continue
         parts = str_parts(c.args[0])
-        if parts is None:
+        if parts is None or not any(isinstance(p, str) for p in parts):
             continue
-        try:
-            out.append((c, parse_sql(parts), None))
-        except (ValueError, IndexError) as e:
-            out.append((c, None, str(e)))
+        # a hole that is the variable of a loop over constant strings stands for each of them
+        variants = [parts]
+        for i, p in enumerate(parts):
+            if isinstance(p, tuple) and p[1].isidentifier():
+                vals = _loop_constants(c, p[1])
+                if vals:
+                    variants = [v[:i] + [val] + v[i + 1:] for v in variants for val in vals]
+        for v in variants:
+            try:
+                out.append((c, parse_sql(v), None))
+            except (ValueError, IndexError) as e:
+                out.append((c, None, str(e)))
     return out
 
 
@@ -428,6 +449,28 @@ class Flow:
 
 
 _EXITS = (ast.Continue, ast.Return, ast.Raise, ast.Break)
+
+
+def apath(flow, e, at=None, depth=0):
+    """astx.path with a leading local alias expanded: rec_mgr -> self._rec_mgr when `rec_mgr = self._rec_mgr`."""
+    p = astx.path(e)
+    if p is None or flow is None or depth > 3:
+        return p
+    root = e
+    while isinstance(root, (ast.Attribute, ast.Subscript, ast.Call)):
+        root = root.func if isinstance(root, ast.Call) else root.value
+    if not isinstance(root, ast.Name) or root.id in ('self', 'cls'):
+        return p
+    try:
+        v, d = flow.single(root.id, at if at is not None else flow.at(e))
+    except AnalysisError:
+        return p
+    if v is None:
+        return p
+    vp = apath(flow, v, d, depth + 1)
+    if vp is None:
+        return p
+    return vp + p[len(root.id):]
 
 
 def guards(stmt, stop):
@@ -942,11 +985,16 @@ def global_sites(repo, f):
     params = [a.arg for a in f.node.args.args]
     sites = []
 
-    def mk(node, rt, rid, cur, sub):
+    def mk(node, rt, rid, cur, sub, fn):
         def S(e):
             return sub.get(e.id, e) if isinstance(e, ast.Name) else e
         rt, cur = (S(rt) if rt is not None else None), (S(cur) if cur is not None else None)
         base = None
+        if isinstance(rid, ast.Name) and rid.id not in sub:
+            flow = func_flow(repo, fn)
+            v, _ = flow.single(rid.id, flow.at(rid))
+            if v is not None:
+                rid = v             # rowid = c.lastrowid ; ... (..., rowid, ...)
         if isinstance(rid, ast.Attribute) and rid.attr == 'lastrowid':
             base = astx.path(S(rid.value))
         return dict(node=node, lit=astx.const_str(rt) if rt is not None else None,
@@ -955,7 +1003,7 @@ def global_sites(repo, f):
     for c, rt, rid, cur in _direct_global(repo, f):
         if isinstance(rt, ast.Name) and rt.id in params:
             continue
-        sites.append(mk(c, rt, rid, cur, {}))
+        sites.append(mk(c, rt, rid, cur, {}, f))
     cls = f.qualname.rsplit('.', 1)[0] if '.' in f.qualname else None
     if cls:
         for call in astx.calls(f.node):
@@ -977,7 +1025,7 @@ def global_sites(repo, f):
                 if k.arg:
                     sub[k.arg] = k.value
             for c, rt, rid, cur in direct:
-                sites.append(mk(call, rt, rid, cur, sub))
+                sites.append(mk(call, rt, rid, cur, sub, h))
     return sites
 
 
@@ -1860,6 +1908,43 @@ def _derives(flow, e, at, depth=0):
     return None
 
 
+def _transforms(flow, e, at, depth=0):
+    """[(guard owner id, normalised elt dump)] of the comprehensions that rewrite a pattern list before its use;
+    [] when the option value is used as given; None if not recognised."""
+    if depth > 5:
+        return None
+    if opt_key(flow, e, at) is not None:
+        return []
+    if isinstance(e, ast.ListComp) and len(e.generators) == 1 and isinstance(e.generators[0].target, ast.Name):
+        inner = _transforms(flow, e.generators[0].iter, at, depth + 1)
+        if inner is None:
+            return None
+        tv = e.generators[0].target.id
+        norm = ast.dump(_Rename({tv: 'T'}).visit(astx.canon(e.elt)), annotate_fields=False)
+        owner = astx.enclosing(e, (ast.If, ast.For, ast.While, ast.FunctionDef))
+        return inner + [(('comp', id(owner)), norm)]
+    if isinstance(e, ast.Name):
+        res = None
+        for v in flow.values(e.id, at):
+            if v[0] != 'expr':
+                return None
+            r = _transforms(flow, v[1], v[2], depth + 1)
+            if r is None:
+                return None
+            # union over the definitions that can reach the use: a conditional rewrite counts once
+            res = r if res is None or len(r) > len(res) else res
+        return res
+    return None
+
+
+class _Rename(ast.NodeTransformer):
+    def __init__(self, m):
+        self.m = m
+
+    def visit_Name(self, node):
+        return ast.Name(id=self.m.get(node.id, node.id), ctx=node.ctx)
+
+
 def _kind_marker(e):
     """Kinds an iterable expression names ('input' literal / _inputs vector ...)."""
     ks = set()
@@ -1928,7 +2013,18 @@ def select(repo, out):
                 out.bad(f, c, f'check_path(name, includes, excludes) is called with includes <- options{sorted(di)} '
                         f'and excludes <- options{sorted(de)}', key='checkpath-args')
             else:
-                out.ok(f, c, 'check_path(name, includes, excludes)')
+                ti, te = _transforms(flow, inc, at), _transforms(flow, exc, at)
+                if ti is None or te is None:
+                    out.unsure(f, c, 'rewriting of the includes/excludes patterns not recognised')
+                elif sorted(k for k, _ in ti) != sorted(k for k, _ in te):
+                    only = 'includes' if len(ti) > len(te) else 'excludes'
+                    out.bad(f, c, f'the {only} patterns are rewritten (e.g. made relative to the system) on a path '
+                            'where the other pattern list is used as given: both lists are matched against the same '
+                            'names and must be rewritten under the same conditions', key='checkpath-transform')
+                elif sorted(d for _, d in ti) != sorted(d for _, d in te):
+                    out.unsure(f, c, 'includes and excludes are rewritten by different expressions')
+                else:
+                    out.ok(f, c, 'check_path(name, includes, excludes)')
         # (b) each kind under its option, from names of its kind, through a positive filter
         for K in KINDS:
             name = s.var.get(K)
@@ -2555,7 +2651,7 @@ def _vec_ident(flow, e, at, vname, depth=0):
     """
     want = _vec_name_value(flow, vname, at)
     if isinstance(e, ast.Subscript) and isinstance(e.value, ast.Subscript) and \
-            (astx.path(e.value.value) or '').endswith('._vectors'):
+            (apath(flow, e.value.value, at) or '').endswith('._vectors'):
         kind = astx.const_str(e.value.slice)
         got = _vec_name_value(flow, e.slice, at)
         if kind is None or got is None or want is None:
@@ -2625,12 +2721,12 @@ def phys(repo, out):
                 out.ok(f, reads[0], 'physical state: ' + PHYS_CALLED[(rel, f.qualname)])
                 continue
             key = 'record-scaled-' + (f.qualname.split('.')[0].lower() if f.cls is not None else f.qualname)
+            flow = func_flow(repo, f)
             hands = [c for c in astx.calls(f.node) if astx.callee_attr(c) == 'record_iteration' and
-                     (astx.path(astx.receiver(c)) or '').endswith('._rec_mgr')]
+                     (apath(flow, astx.receiver(c)) or '').endswith('._rec_mgr')]
             if not hands:
                 out.unsure(f, f.node, 'no hand-over to _rec_mgr.record_iteration found')
                 continue
-            flow = func_flow(repo, f)
 
             def ctx_of(node):
                 for a in astx.ancestors(node):
@@ -2717,58 +2813,137 @@ def _flows_through_conns(block, expr, depth=0):
     return False
 
 
-def _prom_branch(f, kind):
-    """(if-stmt, body) of the branch of f guarded by  name in <prom2abs>['kind']  (positive conjunct)."""
+def _prom_branch(repo, f, kind):
+    """if-stmt of f guarded by  name in <self._prom2abs>['kind']  (positive conjunct; the mapping may be aliased)."""
     name = [a.arg for a in f.node.args.args][1]
+    flow = func_flow(repo, f)
     for st in astx.walk_stmts(f.node.body):
         if not isinstance(st, ast.If):
             continue
         for a, pol in conjuncts(st.test):
             if pol and isinstance(a, ast.Compare) and len(a.ops) == 1 and isinstance(a.ops[0], ast.In) and \
-                    isinstance(a.left, ast.Name) and a.left.id == name and isinstance(a.comparators[0], ast.Subscript) \
-                    and astx.const_str(a.comparators[0].slice) == kind and \
-                    astx.mentions(a.comparators[0].value, '_prom2abs', 'prom2abs'):
-                return st
+                    isinstance(a.left, ast.Name) and a.left.id == name:
+                p = apath(flow, a.comparators[0], flow.g.nodes_of(st)[0]) or ''
+                if p == f"self._prom2abs[{kind!r}]":
+                    return st
     return None
 
 
-@rule('C17.units', floor=2)
+NAME_CLASSES = {   # kinds of names a user can pass to Case.get_val, as membership facts
+    'absolute input': dict(meta=True, p2a_in=False, a2p_in=True, p2a_out=False, a2p_out=False, out=False),
+    'absolute input that is its own promoted name': dict(meta=True, p2a_in=True, a2p_in=True, p2a_out=False,
+                                                        a2p_out=False, out=False),
+    'promoted input': dict(meta=False, p2a_in=True, a2p_in=False, p2a_out=False, a2p_out=False, out=False),
+    'absolute output': dict(meta=True, p2a_in=False, a2p_in=False, p2a_out=False, a2p_out=True, out=True),
+    'promoted output': dict(meta=False, p2a_in=False, a2p_in=False, p2a_out=True, a2p_out=False, out=True),
+}
+_MEMBER_ATOMS = {"self._prom2abs['input']": 'p2a_in', "self._prom2abs['output']": 'p2a_out',
+                 "self._abs2prom['input']": 'a2p_in', "self._abs2prom['output']": 'a2p_out',
+                 'self._abs2meta': 'meta', 'self._var_info': None}
+
+
+def _member_eval(flow, test, name, facts, at):
+    """Truth value of a guard made of  name [not] in <mapping>  atoms for one name class; _NoEval if unknown."""
+    if isinstance(test, ast.BoolOp):
+        vals = [_member_eval(flow, v, name, facts, at) for v in test.values]
+        return all(vals) if isinstance(test.op, ast.And) else any(vals)
+    if isinstance(test, ast.UnaryOp) and isinstance(test.op, ast.Not):
+        return not _member_eval(flow, test.operand, name, facts, at)
+    if isinstance(test, ast.Compare) and len(test.ops) == 1:
+        op, l, r = test.ops[0], test.left, test.comparators[0]
+        if isinstance(op, (ast.In, ast.NotIn)) and isinstance(l, ast.Name) and l.id == name:
+            p = apath(flow, r, at)
+            if p in _MEMBER_ATOMS:
+                k = _MEMBER_ATOMS[p]
+                v = facts[k] if k is not None else False
+                return v if isinstance(op, ast.In) else not v
+        if isinstance(op, (ast.Is, ast.IsNot)) and isinstance(r, ast.Constant) and r.value is None and \
+                astx.path(l) in ('self.outputs', 'self.inputs'):
+            return isinstance(op, ast.IsNot)     # the recorded tables are present
+    raise _NoEval()
+
+
+def _units_walk(flow, stmts, name, facts):
+    """'source' | 'own' | 'raise' | None: what _get_units returns for a name class (first matching branch)."""
+    for st in stmts:
+        if astx.is_docstring(st):
+            continue
+        if isinstance(st, ast.If):
+            at = flow.g.nodes_of(st)[0]
+            branch = st.body if _member_eval(flow, st.test, name, facts, at) else st.orelse
+            r = _units_walk(flow, branch, name, facts)
+            if r is not None:
+                return r
+        elif isinstance(st, ast.Return):
+            if st.value is None:
+                return 'own'
+            blk = astx.enclosing(st, (ast.If, ast.FunctionDef))
+            body = blk.body if not isinstance(blk, ast.If) or any(st is x for x in astx.walk_stmts(blk.body)) \
+                else blk.orelse
+            return 'source' if _flows_through_conns(body, st.value) else 'own'
+        elif isinstance(st, ast.Raise):
+            return 'raise'
+        elif isinstance(st, (ast.Assign, ast.Expr, ast.Pass)):
+            continue
+        else:
+            raise _NoEval()
+    return None
+
+
+@rule('C17.units', floor=5)
 def units(repo, out):
-    """Case.get_val converts from the units of the variable the value was taken from: for a promoted input the value comes from the connected source, so must the units; for an output both are its own."""
+    """Case.get_val converts from the units of the variable the value was taken from, for every kind of name (absolute/promoted input or output): value and units are both the variable's own or both those of the connected source."""
     gv = repo.func(CASE, 'Case.get_val')
     if not any(astx.callee_attr(c) == '_get_units' for c in astx.calls(gv.node)):
         raise AnalysisError('Case.get_val no longer takes its base units from Case._get_units')
     fv = repo.func(CASE, 'Case.__getitem__')
     fu = repo.func(CASE, 'Case._get_units')
-    for kind in ('input', 'output'):
-        bv, bu = _prom_branch(fv, kind), _prom_branch(fu, kind)
-        if bu is None:
-            out.unsure(fu, fu.node, f"no branch for promoted {kind} names in _get_units")
+    flv, flu = func_flow(repo, fv), func_flow(repo, fu)
+    nv = [a.arg for a in fv.node.args.args][1]
+    nu = [a.arg for a in fu.node.args.args][1]
+    # value side: `return self.outputs[name]` first, then branches whose returned value goes through _conns
+    direct = [st for st in astx.walk_stmts(fv.node.body) if isinstance(st, ast.Return) and
+              isinstance(st.value, ast.Subscript) and astx.path(st.value.value) == 'self.outputs' and
+              isinstance(st.value.slice, ast.Name) and st.value.slice.id == nv]
+    src_ifs = []
+    for st in astx.walk_stmts(fv.node.body):
+        if isinstance(st, ast.If):
+            rets = [r.value for r in astx.walk_stmts(st.body) if isinstance(r, ast.Return) and r.value is not None]
+            own_test_names = astx.names(st.test)
+            if rets and nv in own_test_names and any(_flows_through_conns(st.body, r) for r in rets):
+                src_ifs.append(st)
+    if not direct:
+        out.unsure(fv, fv.node, 'Case.__getitem__ does not start by looking the name up in self.outputs')
+        return
+    for cname, facts in NAME_CLASSES.items():
+        kind = 'output' if facts['out'] else 'input'
+        try:
+            if facts['out']:
+                val = 'own'
+            else:
+                val = 'own'
+                for st in src_ifs:
+                    if st.lineno < direct[0].lineno:
+                        raise _NoEval()
+                    if _member_eval(flv, st.test, nv, facts, flv.g.nodes_of(st)[0]):
+                        val = 'source'
+            uni = _units_walk(flu, fu.node.body, nu, facts)
+        except _NoEval:
+            out.unsure(fu, fu.node, f'guards of Case.__getitem__/_get_units not understood for an {cname} name')
             continue
-        # provenance of the value: through _conns (source output) or the variable itself
-        if bv is None:
-            val_src = False     # no special branch: the value is looked up under its own name
+        if uni in (None, 'raise'):
+            out.bad(fu, fu.node, f'_get_units finds no units for an {cname} name although Case.__getitem__ returns '
+                    'its value', key=f'units-provenance-{kind}')
+        elif uni == val:
+            out.ok(fu, fu.node, f"{cname}: value and units both come from "
+                   f"{'the connected source output' if val == 'source' else 'the variable itself'}")
         else:
-            rets = [st.value for st in astx.walk_stmts(bv.body) if isinstance(st, ast.Return) and st.value is not None]
-            if not rets:
-                out.unsure(fv, bv, 'value branch without return')
-                continue
-            val_src = any(_flows_through_conns(bv.body, r) for r in rets)
-        rets = [st for st in astx.walk_stmts(bu.body) if isinstance(st, ast.Return) and st.value is not None]
-        if not rets:
-            out.unsure(fu, bu, 'units branch without return')
-            continue
-        uni_src = [_flows_through_conns(bu.body, r.value) for r in rets]
-        if all(u == val_src for u in uni_src):
-            out.ok(fu, rets[0], f"promoted {kind}: value and units both come from "
-                   f"{'the connected source output' if val_src else 'the variable itself'}")
-        else:
-            out.bad(fu, rets[uni_src.index(not val_src)],
-                    f"for a promoted {kind} name Case.__getitem__ returns the value of "
-                    f"{'its connected source output (via _conns)' if val_src else 'the variable itself'} but "
-                    f"_get_units returns the units of {'the input itself' if val_src else 'the connected source'}: "
-                    'get_val(name, units=...) converts from the wrong units when the two differ',
-                    key=f'units-provenance-{kind}')
+            where = src_ifs[0] if (src_ifs and val == 'source' and facts['meta']) else fu.node
+            desc = {'source': 'its connected source output (via _conns)', 'own': 'the variable itself'}
+            out.bad(fv if where is not fu.node else fu, where,
+                    f"for an {cname} name Case.__getitem__ returns the value of {desc[val]} but _get_units returns "
+                    f"the units of {desc[uni]}: get_val(name, units=...) converts from the wrong units when the two "
+                    'differ', key=f'units-provenance-{kind}')
 
 
 # =========================================================================== C17.stack
@@ -2777,8 +2952,13 @@ SAFE_ACCESSORS = {'_system': 'weak reference to the owning system', '_problem': 
                   'recording_requester': 'weak reference held by the Recording context manager'}
 
 
-def _is_stack_call(c, meth):
-    return astx.callee_attr(c) == meth and (astx.path(astx.receiver(c)) or '').endswith('_recording_iter')
+def _is_stack_call(c, meth, flow=None):
+    if astx.callee_attr(c) != meth:
+        return False
+    r = astx.receiver(c)
+    if (astx.path(r) or '').endswith('_recording_iter'):
+        return True
+    return flow is not None and isinstance(r, ast.Name) and (apath(flow, r) or '').endswith('_recording_iter')
 
 
 @rule('C17.stack', floor=8)
@@ -2790,11 +2970,15 @@ def stack(repo, out):
             continue
         m = repo.module(rel)
         for f in m.funcs.values():
-            pushes = [c for c in astx.calls(f.node) if _is_stack_call(c, 'push')]
+            if not any(astx.callee_attr(c) == 'push' for c in astx.calls(f.node)) or \
+                    not astx.mentions(f.node, '_recording_iter'):
+                continue
+            flow = func_flow(repo, f)
+            pushes = [c for c in astx.calls(f.node) if _is_stack_call(c, 'push', flow)]
             if not pushes:
                 continue
-            g = cfgm.build(f)
-            pops = g.where(lambda n: any(_is_stack_call(c, 'pop') for c in n.calls()))
+            g = flow.g
+            pops = g.where(lambda n: any(_is_stack_call(c, 'pop', flow) for c in n.calls()))
             for pc in pushes:
                 pn = [n for n in g.nodes_of(astx.stmt_of(pc))]
                 if not pn:
@@ -2830,7 +3014,7 @@ def stack(repo, out):
                     if n is g.exit or n is g.raise_exit:
                         leak = n
                         break
-                    risky = any(astx.callee_attr(c) not in SAFE_ACCESSORS and not _is_stack_call(c, 'push')
+                    risky = any(astx.callee_attr(c) not in SAFE_ACCESSORS and not _is_stack_call(c, 'push', flow)
                                 for c in n.calls()) or (n.kind == 'stmt' and isinstance(n.ast, ast.Raise))
                     for m2, lab in g.succ[n]:
                         if lab == 'exc' and not risky:
@@ -3041,6 +3225,44 @@ selftest(
     Mutant('pa-case', CASE, "self.parent = '|'.join(parts[:-2])", "self.parent = '|'.join(parts[:-1])", 'C17.parent'),
     Mutant('pa-nested', RDR, "parent_coord = '|'.join(case_coord.split('|')[:-2])", "parent_coord = '|'.join(case_coord.split('|')[:-3])",
            'C17.parent'),
+    # ---- third seeding round
+    Mutant('se-excl-not-relative', SLV, "                incl = ['.'.join((system.pathname, i)) for i in incl]\n                excl = ['.'.join((system.pathname, i)) for i in excl]\n",
+           "                incl = [f'{system.pathname}.{i}' for i in incl]\n", 'C17.select'),
+    Mutant('se-incl-not-relative', SLV, "                incl = ['.'.join((system.pathname, i)) for i in incl]\n", "", 'C17.select'),
+    Twin('tw-relative-fstring', SLV, "                incl = ['.'.join((system.pathname, i)) for i in incl]\n                excl = ['.'.join((system.pathname, i)) for i in excl]\n",
+         "                incl = [f'{system.pathname}.{pat}' for pat in incl]\n                excl = [f'{system.pathname}.{p}' for p in excl]\n"),
+    Mutant('un-abs-name-source', CASE, "if name in self._prom2abs['input'] and name not in self._abs2prom['input']:",
+           "if name in self._prom2abs['input']:", 'C17.units'),
+    Twin('tw-getitem-demorgan', CASE, "if name in self._prom2abs['input'] and name not in self._abs2prom['input']:",
+         "if not (name not in self._prom2abs['input'] or name in self._abs2prom['input']):"),
+    Mutant('un-units-order', CASE, "        if name in meta:\n            return meta[name]['units']\n\n        prom2abs = self._prom2abs\n",
+           "        prom2abs = self._prom2abs\n", 'C17.units',
+           also=[(CASE, "        elif name in self._var_info:\n            # This can happen if name is an alias.",
+                  "        elif name in meta:\n            return meta[name]['units']\n\n        elif name in self._var_info:\n            # This can happen if name is an alias.")]),
+    # ---- second robustness round: aliases, early returns, loop over constant table names, lastrowid temporary
+    Twin('tw-units-early-returns', CASE, "        prom2abs = self._prom2abs\n\n        if name in prom2abs['output']:\n            abs_name = prom2abs['output'][name][0]\n            return meta[abs_name]['units']\n\n        elif name in prom2abs['input']:\n            abs_name = prom2abs['input'][name][0]\n            return meta[self._conns[abs_name]]['units']\n",
+         "        p2a_out = self._prom2abs['output']\n        if name in p2a_out:\n            return meta[p2a_out[name][0]]['units']\n\n        p2a_in = self._prom2abs['input']\n        if name in p2a_in:\n            abs_in = p2a_in[name][0]\n            return meta[self._conns[abs_in]]['units']\n\n        if False:\n            pass\n"),
+    Mutant('un-early-returns-own', CASE, "        prom2abs = self._prom2abs\n\n        if name in prom2abs['output']:\n            abs_name = prom2abs['output'][name][0]\n            return meta[abs_name]['units']\n\n        elif name in prom2abs['input']:\n            abs_name = prom2abs['input'][name][0]\n            return meta[self._conns[abs_name]]['units']\n",
+           "        p2a_out = self._prom2abs['output']\n        if name in p2a_out:\n            return meta[p2a_out[name][0]]['units']\n\n        p2a_in = self._prom2abs['input']\n        if name in p2a_in:\n            abs_in = p2a_in[name][0]\n            return meta[abs_in]['units']\n\n        if False:\n            pass\n",
+           'C17.units'),
+    Twin('tw-stack-alias', SLV, "        self._recording_iter.push(('_run_apply', 0))\n        try:\n            self._system()._apply_nonlinear()\n        finally:\n            self._recording_iter.pop()",
+         "        rec_iter = self._recording_iter\n        rec_iter.push(('_run_apply', 0))\n        try:\n            self._system()._apply_nonlinear()\n        finally:\n            rec_iter.pop()"),
+    Mutant('sk-alias-no-finally', SLV, "        self._recording_iter.push(('_run_apply', 0))\n        try:\n            self._system()._apply_nonlinear()\n        finally:\n            self._recording_iter.pop()",
+           "        rec_iter = self._recording_iter\n        rec_iter.push(('_run_apply', 0))\n        self._system()._apply_nonlinear()\n        rec_iter.pop()", 'C17.stack'),
+    Twin('tw-phys-aliases', SLV, "        with system._unscaled_context(outputs=[system._vectors['output'][vec_name]],\n                                      residuals=[system._vectors['residual'][vec_name]]):",
+         "        vectors = system._vectors\n        rec_mgr = self._rec_mgr\n        with system._unscaled_context(outputs=[vectors['output'][vec_name]],\n                                      residuals=[vectors['residual'][vec_name]]):",
+         also=[(SLV, "            self._rec_mgr.record_iteration(self, data, metadata)", "            rec_mgr.record_iteration(self, data, metadata)")]),
+    Mutant('ph-alias-handover-after', SLV, "        with system._unscaled_context(outputs=[system._vectors['output'][vec_name]],\n                                      residuals=[system._vectors['residual'][vec_name]]):",
+           "        vectors = system._vectors\n        rec_mgr = self._rec_mgr\n        with system._unscaled_context(outputs=[vectors['output'][vec_name]],\n                                      residuals=[vectors['residual'][vec_name]]):",
+           'C17.phys', also=[(SLV, "            self._rec_mgr.record_iteration(self, data, metadata)", "        rec_mgr.record_iteration(self, data, metadata)")]),
+    Twin('tw-delete-loop', REC, "            self.connection.execute(\"DELETE FROM driver_metadata\")\n            self.connection.execute(\"DELETE FROM system_metadata\")\n            self.connection.execute(\"DELETE FROM solver_metadata\")",
+         "            for table in ('driver_metadata', 'system_metadata', 'solver_metadata'):\n                self.connection.execute(\"DELETE FROM \" + table)"),
+    Mutant('sw-delete-loop-typo', REC, "            self.connection.execute(\"DELETE FROM driver_metadata\")\n            self.connection.execute(\"DELETE FROM system_metadata\")\n            self.connection.execute(\"DELETE FROM solver_metadata\")",
+           "            for table in ('driver_metadata', 'system_metadata', 'solvers_metadata'):\n                self.connection.execute(\"DELETE FROM \" + table)", 'C17.schema_write'),
+    Twin('tw-rowid-temp', REC, "                c.execute(\"INSERT INTO global_iterations(record_type, rowid, source) VALUES(?,?,?)\",\n                          ('system', c.lastrowid, source_system))",
+         "                rowid = c.lastrowid\n                c.execute(\"INSERT INTO global_iterations(record_type, rowid, source) VALUES(?,?,?)\",\n                          ('system', rowid, source_system))"),
+    Mutant('st-rowid-temp-counter', REC, "                c.execute(\"INSERT INTO global_iterations(record_type, rowid, source) VALUES(?,?,?)\",\n                          ('system', c.lastrowid, source_system))",
+           "                rowid = self._counter\n                c.execute(\"INSERT INTO global_iterations(record_type, rowid, source) VALUES(?,?,?)\",\n                          ('system', rowid, source_system))", 'C17.store'),
     # ---- units (value/units provenance of Case.get_val)
     Mutant('un-own-units', CASE, "return meta[self._conns[abs_name]]['units']", "return meta[abs_name]['units']", 'C17.units'),
     Mutant('un-output-via-conns', CASE, "            abs_name = prom2abs['output'][name][0]\n            return meta[abs_name]['units']",
